@@ -112,6 +112,47 @@ func buildAlgSet[T comparable](c *core.Ctx, kind string, cm NamedCmp[T], members
 			}
 		}
 	}
+	// A set of this kind can be reached by other routes than New + Add: the
+	// variadic constructor, Select/Map of another set, an earlier algebra
+	// result, a load from JSON. All of them are legitimate operands.
+	route := r.Intn(7)
+	c.Count("operand-route:"+[]string{"add", "add", "constructor", "select", "map", "algebra-result", "json"}[route], 1)
+	switch route {
+	case 2:
+		vs := a.S.Values()
+		switch kind {
+		case "HashSet":
+			return wrapHashSet(hashset.New[T](vs...))
+		case "LinkedHashSet":
+			return wrapLinkedSet(linkedhashset.New[T](vs...))
+		default:
+			return wrapTreeSet(treeset.NewWith[T](cm.F, vs...), cm.F)
+		}
+	case 3:
+		switch x := a.raw.(type) {
+		case *linkedhashset.Set[T]:
+			return wrapLinkedSet(x.Select(func(int, T) bool { return true }))
+		case *treeset.Set[T]:
+			return wrapTreeSet(x.Select(func(int, T) bool { return true }), cm.F)
+		}
+	case 4:
+		switch x := a.raw.(type) {
+		case *linkedhashset.Set[T]:
+			return wrapLinkedSet(x.Map(func(_ int, v T) T { return v }))
+		case *treeset.Set[T]:
+			return wrapTreeSet(x.Map(func(_ int, v T) T { return v }), cm.F)
+		}
+	case 5:
+		return a.union(a)
+	case 6:
+		if js, ok := a.raw.(jsonAPI); ok {
+			if data, err := js.ToJSON(); err == nil {
+				if _, isStruct := any(d.Alpha[0]).(SK); !isStruct {
+					js.FromJSON(data)
+				}
+			}
+		}
+	}
 	return a
 }
 
@@ -142,6 +183,24 @@ func runC13Case[T comparable](c *core.Ctx, d *Dom[T], kind string) {
 	if len(d.Alpha) >= 200 {
 		big = 12
 		c.Count("pair:operands-with-dozens-to-hundreds-of-members", 1)
+	}
+	if len(d.Alpha) >= 1500 {
+		// one operand with many hundreds of members, the other small (or the
+		// other way round): size-ratio heuristics and fast paths
+		nBig, nSmall := r.Range(300, 1200), r.Range(0, 30)
+		overlap := r.Range(0, nSmall)
+		small := take(nSmall)
+		bigM := append(append([]T{}, small[:overlap]...), take(nBig)...)
+		pk = "huge-vs-small"
+		c.Count("pair:huge-vs-small", 1)
+		if r.Bool() {
+			universe = nil
+			runAlgebraOn(c, d, kind, cm, pk, bigM, small)
+		} else {
+			universe = nil
+			runAlgebraOn(c, d, kind, cm, pk, small, bigM)
+		}
+		return
 	}
 	var ma, mb []T
 	switch pk {
@@ -175,6 +234,13 @@ func runC13Case[T comparable](c *core.Ctx, d *Dom[T], kind string) {
 			}
 		}
 	}
+	runAlgebraOn(c, d, kind, cm, pk, ma, mb)
+}
+
+// runAlgebraOn builds the two operands from their member lists and checks the
+// three operations on them.
+func runAlgebraOn[T comparable](c *core.Ctx, d *Dom[T], kind string, cm NamedCmp[T], pk string, ma, mb []T) {
+	r := c.R
 	a := buildAlgSet(c, kind, cm, ma, d)
 	b := a
 	if pk != "same-object" {
@@ -284,6 +350,11 @@ func runC13Case[T comparable](c *core.Ctx, d *Dom[T], kind string) {
 		// 5. independence: mutate each of the three in turn
 		fresh := d.Probe[r.Intn(len(d.Probe))]
 		mutate := func(s *algSet[T]) {
+			if r.Intn(4) == 0 {
+				s.S.Clear() // wholesale changes take other paths than Add/Remove
+				s.S.Add(fresh)
+				return
+			}
 			s.S.Add(fresh)
 			if vs := s.S.Values(); len(vs) > 1 {
 				s.S.Remove(vs[r.Intn(len(vs))])
@@ -367,6 +438,10 @@ func (ar *algRestore[T]) restore() {
 
 func runC13(c *core.Ctx) {
 	kind := []string{"HashSet", "LinkedHashSet", "TreeSet"}[c.Index%3]
+	if (c.Index/3)%499 == 77 {
+		runC13Case(c, IntDom(c.R.Range(1500, 2500)), kind)
+		return
+	}
 	if (c.Index/3)%53 == 9 {
 		runC13Case(c, IntDom(c.R.Range(200, 600)), kind) // operands with hundreds of members
 		return
